@@ -138,6 +138,11 @@ def extra_paths(ctx):
         if s and "." not in s:
             out.append(p + [s])
         out.append(p + ["zz"])
+    # words that are the text of some value, under prefixes that do not exist (or are scalars)
+    for pre in ([], ["zz"], ["zz", "zz"], ["a", "zz"], ["b"], ["c", "a"]):
+        for word in ("None", "True", "0"):
+            if pre or word:
+                out.append(pre + [word])
     return out
 
 
